@@ -33,6 +33,9 @@ def generate(ctx):
         d["clear_at"] = rng.choice([None, None, 3, 6])      # clear() on the batched component and on every twin, mid-run
         if kind == "neuron":
             d.update(cls=fac.NEURONS[(i // len(KINDS)) % 8], shape=list(rng.choice([(3,), (2, 2)])), lock=rng.random() < 0.8)
+            if rng.random() < 0.4:
+                d["B"] = d["shape"][0]        # a batch as large as the group's first dimension (shape coincidences)
+                d["resize_from"] = None if d["resize_from"] == d["B"] else d["resize_from"]
         elif kind == "synapse":
             d.update(syn=fac.SYNAPSES[(i // len(KINDS)) % 4], delay=rng.choice([0, 2, 3]), interp=rng.choice(["previous", "nearest"]),
                      inplace=rng.random() < 0.5, shape=list(rng.choice([(3,), (2, 2)])))
@@ -153,6 +156,36 @@ def _neuron(ctx, desc):
                 and _cmp(ctx, desc, "voltage", [nb.voltage[b:b + 1] for b in range(B)], [n.voltage for n in singles], t)
                 and _cmp(ctx, desc, "refrac", [nb.refrac[b:b + 1] for b in range(B)], [n.refrac for n in singles], t)):
             return
+    if attr:
+        # the documented cross-sample coupling: ONE adapting step from the (identical) state reached above.  The learned adaptation
+        # keeps its unbatched shape and is the configured batch reduction (default: mean) of what each sample alone would learn
+        x = xs[-1] + torch.randn(xs[-1].shape, generator=g, dtype=torch.float64) * 5
+        kw["adapt"] = True
+        nb(x, **kw)
+        for b, n in enumerate(singles):
+            n(x[b:b + 1], **kw)
+        got = getattr(nb, attr).detach()
+        each = torch.stack([getattr(n, attr).detach() for n in singles], 0)
+        ctx.count("adapting_steps_checked")
+        if B == shape[0]:
+            ctx.count("adapting_steps_with_batch_size_equal_to_first_neuron_dimension")
+        if tuple(got.shape) != tuple(a.shape):
+            return ctx.violation("neuron.adaptation.shape_after_batched_adapting_step",
+                                 f"{attr} has shape {tuple(got.shape)} after an adapting step on a batch of {B}, expected {tuple(a.shape)}", desc)
+        if not torch.allclose(got, each.mean(0), rtol=1e-9, atol=1e-10):
+            return ctx.violation("neuron.adaptation.not_the_batch_reduction_of_per_sample_adaptations",
+                                 f"{attr} after an adapting step differs from the mean of the per-sample results", desc,
+                                 {"max_err": float((got - each.mean(0)).abs().max())})
+        kw["adapt"] = False
+        for n in singles:
+            setattr(n, attr, got.clone())
+        for t2 in range(3):
+            x = xs[t2 % len(xs)] + torch.randn(xs[0].shape, generator=g, dtype=torch.float64) * 5
+            sb = nb(x, **kw)
+            ss = [n(x[b:b + 1], **kw) for b, n in enumerate(singles)]
+            if not (_cmp(ctx, desc, "spikes", [sb[b:b + 1] for b in range(B)], ss, desc["T"] + 1 + t2)
+                    and _cmp(ctx, desc, "voltage", [nb.voltage[b:b + 1] for b in range(B)], [n.voltage for n in singles], desc["T"] + 1 + t2)):
+                return
 
 
 def _mk_syn(desc, B):
